@@ -94,6 +94,12 @@ def run(ctx):
                                   '(password, mnemonic and network forwarded unchanged)' % name, fi.where)
             fi = p.get_function('base_wallet.BaseWallet.new_wallet')
             with ctx.obligation('C03.CTOR', 'BaseWallet.new_wallet', cfg, fi.where) as ob:
+                v0, _ = ev.call_function('base_wallet.BaseWallet.new_wallet', [T.clsref(cls)])
+                fresh0 = T.raw_op('FRESH', T.const(256))
+                for leaf in distinct_normal_leaves(v0):
+                    same_term(ob, leaf, wallet_term(cls, master_node_term(SP.bip39_seed(fresh0, T.const('')), T.FALSE), T.FALSE, fresh0, T.const('')),
+                              'new_wallet() defaults: 24 words (256 bits), empty passphrase, mainnet', fi.where)
+                ob.require(len(distinct_normal_leaves(v0)) >= 1, 'new_wallet() with defaults produces a wallet', fi.where)
                 tbl = ev.module_const('bip39', 'MNEMONIC_LENGTH_TO_ENTROPY_BITS')
                 for words, ebits in ((12, 128), (15, 160), (18, 192), (21, 224), (24, 256)):
                     v, f = ev.call_function('base_wallet.BaseWallet.new_wallet', [T.clsref(cls), T.const(words), pw, tn])
